@@ -578,8 +578,114 @@ def run(ctx):
             ctx.sample({'tag': tag, 'boxes': show_boxes(bs)[:6], 'query': [shw(v) for v in qs[0]],
                         'impl': first, 'tree_depth': depth})
     ctx.notes.append(f'timing: generate {t_gen - t_start:.1f}s, model (driver) {t_drv - t_gen:.1f}s, implementation+oracle {time.time() - t_drv:.1f}s; {len(cases)} box lists')
+
+    # =================================================================================================
+    # ---- the SOURCE-REGENERATED code (translator: classes, recursion on fuel, comprehensions, sets): gen_stream below
+    gen_stream(ctx, rtree, cases)
     # ======== "sitecov" input stream - self-contained, implemented at the end of this file; keep this call last ========
     _sitecov_tail(ctx)
+
+
+# Generated-code stream: Gen.rtree_Index_init / Gen.rtree_Index_intersection (lean/Plotink/Gen/rtree_Index.lean,
+# regenerated from rtree.py on every run - the definitions the C14_gen_* theorems are about) against the real class:
+# the WHOLE instance tree (class tag, leaf box lists, subtree lists, the four extents with +-inf for empty quadrants) must
+# be identical, every float bit for bit, and every query must return the same id set.  Fraction boxes run under
+# Rounding.exact, int and float boxes under Rounding.ieee (the running mean is binary64 arithmetic).  Not compared:
+# near-maximal floats (the mean overflows in binary64; Rounding.ieee has an unbounded exponent).  Fuel = number of
+# boxes + 2 (the recursion depth is at most the number of boxes: C14_terminates).
+GEN_FUNCTIONS = ['rtree_Index']
+TRUSTED = TRUSTED + ['Gen.rtree_Index_init / _intersection are regenerated from rtree.py on every run (C14_gen_* theorems); not '
+                     'verified, validated by the generated-code stream of this run: the translator (classes as tagged field '
+                     'tuples, recursion on fuel, list comprehensions, sets as duplicate-free lists, math.inf as sentinels of '
+                     'the extended comparisons) and the Py.Val library; Rounding.ieee as binary64']
+
+
+def _gen_val(v):
+    from .common import pyval, enc_str
+    if isinstance(v, Fraction):
+        return 'f' + frac_str(v)
+    if isinstance(v, float) and v == math.inf:
+        return 's' + enc_str('inf')
+    if isinstance(v, float) and v == -math.inf:
+        return 's' + enc_str('-inf')
+    if isinstance(v, (list, tuple)):
+        return '(' + ' '.join(_gen_val(x) for x in v) + ')'
+    return pyval(v)
+
+
+def _gen_tree(idx):
+    from .common import enc_str
+    return '(' + ' '.join(['s' + enc_str('Index'), _gen_val(idx.bboxes), '(' + ' '.join(_gen_tree(t) for t in idx.subtrees) + ')',
+                           _gen_val(idx.xmin), _gen_val(idx.ymin), _gen_val(idx.xmax), _gen_val(idx.ymax)]) + ')'
+
+
+def _gen_arg(v):
+    if isinstance(v, (list, tuple)):
+        return '[' + ','.join(_gen_arg(x) for x in v) + ']'
+    return _gen_val(v)
+
+
+def gen_stream(ctx, rtree, cases):
+    if not ctx.driver:
+        ctx.notes.append('generated-code stream skipped: no driver')
+        return
+    rng = ctx.rng
+    t0 = time.time()
+    sel = [c for c in cases if c[0] != 'huge' and not is_huge(c[2]) and all(isinstance(i, int) for i, _ in c[2])]
+    cap = ctx.n(2400)
+    if len(sel) > cap:
+        head = [c for c in sel if c[0] in ('corpus', 'replay')]
+        rest = [c for c in sel if c[0] not in ('corpus', 'replay')]
+        by_tag = {}
+        for c in rest:
+            by_tag.setdefault(c[0], []).append(c)
+        per = max(1, (cap - len(head)) // max(1, len(by_tag)))
+        sel = head
+        for tag in sorted(by_tag):
+            sel += by_tag[tag] if len(by_tag[tag]) <= per else rng.sample(by_tag[tag], per)
+    lines = []
+    for (tag, kind, bs, qs) in sel:
+        dps = 'x15' if kind == 'frac' else '15'
+        lines.append(f"gen rtree {dps} {len(bs) + 2} {_gen_arg([[i, list(b)] for i, b in bs])} {_gen_arg([list(q) for q in qs[:6]])}")
+    outs = ctx.driver.batch(lines)
+    n = bad_t = bad_q = nq = 0
+    for (tag, kind, bs, qs), g in zip(sel, outs):
+        inp = {'gen': True, 'kind': kind, 'boxes': show_boxes(bs)}
+        try:
+            idx = rtree.Index(list(bs))
+            want_t = _gen_tree(idx)
+            rs = [set(idx.intersection(q)) for q in qs[:6]]
+        except Exception as ex:
+            ctx.disagree('Gen.rtree_Index vs rtree.Index: the real class raised', inp, repr(ex), g[:200])
+            continue
+        n += 1
+        ctx.count(('gen', tag, tuple(bs)), 'gen:' + kind, False)
+        want = '(' + want_t + ' ('
+        if not g.startswith(want):
+            bad_t += 1
+            ctx.disagree(f"Gen.rtree_Index_init (Rounding.{'exact' if kind == 'frac' else 'ieee'}) vs rtree.Index: instance trees differ",
+                         inp, want_t[:400], g[:400])
+            continue
+        tail = g[len(want):-2] if g.endswith('))') else None
+        got = None
+        if tail is not None:
+            got, depth, cur = [], 0, ''
+            for ch in tail:        # the results: a blank-separated list of (id id …) groups
+                if ch == '(':
+                    depth += 1; cur = ''
+                elif ch == ')':
+                    depth -= 1; got.append({int(x) for x in cur.split()} if cur.strip() else set())
+                else:
+                    cur += ch
+        for k, (q, r) in enumerate(zip(qs[:6], rs)):
+            nq += 1
+            if got is None or k >= len(got) or got[k] != r:
+                bad_q += 1
+                ctx.disagree('Gen.rtree_Index_intersection vs Index.intersection: id sets differ',
+                             dict(inp, query=[shw(v) for v in q]), sorted(r), sorted(got[k]) if got and k < len(got) else g[-200:])
+    ctx.notes.append(f'generated-code stream: Gen.rtree_Index (init + intersection) vs the real class on {n} box lists: whole instance '
+                     f'trees compared bit for bit ({bad_t} differ), {nq} queries as id sets ({bad_q} differ); {time.time() - t0:.1f}s')
+
 
 
 # ================================================================================================
